@@ -114,6 +114,7 @@ Section Eqs.
           | (ROk l, s2) => match eval_opt hi s2 with
                            | (ROk h, s3) => (match va with
                                              | VBytes b => ROk (VBytes (slice_bytes b l h))
+                                             | VStr t => ROk (VStr (slice_str t l h))
                                              | _ => RFail (FUnmodelled "slice of non-bytes") end, s3)
                            | (RExc c, s3) => (RExc c, s3) | (RFail f, s3) => (RFail f, s3) end
           | (RExc c, s2) => (RExc c, s2) | (RFail f, s2) => (RFail f, s2) end
